@@ -85,7 +85,7 @@ func (dist *GevDistribution) ScalarType() ScalarType {
 
 func (dist *GevDistribution) LogPdf(r Scalar, x ConstScalar) error {
 
-  if dist.Xi.GetFloat64()*(x.GetFloat64() - dist.Mu.GetFloat64())/dist.Sigma.GetFloat64() <= -1 {
+  if (x.GetFloat64() - dist.Mu.GetFloat64())/dist.Sigma.GetFloat64()*dist.Xi.GetFloat64() + 1.0 <= 0 {
     r.SetFloat64(math.Inf(-1))
     return nil
   }
